@@ -404,7 +404,9 @@ func diskTwinP2(s *scen.P2Set, start *envfs.FS, o *scen.P2Obs, c *p2Case, r *cor
 	root := filepath.Join(workerScratch(), fmt.Sprintf("twin-%d", twinSeq))
 	os.RemoveAll(root)
 	defer os.RemoveAll(root)
+	defer os.RemoveAll(root + "-blob")
 	materialize(root, start.Files)
+	twinSymlink(root, s.Paths)
 	index := filepath.Join(root, s.Index)
 	// run from another directory that holds intact look-alikes of every file of the set at the same relative names:
 	// nothing may be resolved against the working directory, and it must stay as it is
@@ -575,5 +577,30 @@ func stagedTwinP2(s *scen.P2Set, start *envfs.FS, o *scen.P2Obs, c *p2Case, r *c
 	}
 	if d := envfs.Diff(start.Snapshot(), o.After); len(d) > 0 {
 		r.Violatef("staged-run-differs-from-wrappers:final-directory", "after Repair the directory differs from the wrapper run in %v", d)
+	}
+}
+
+// twinSymlink: in every third disk twin one protected file (if present) is a symbolic link to its bytes stored
+// elsewhere. Reading and rewriting go through the link; what a link's own metadata says (its size is the length of the
+// target path) must not be taken for the file's.
+func twinSymlink(root string, paths []string) {
+	if twinSeq%3 != 0 || len(paths) == 0 {
+		return
+	}
+	p := filepath.Join(root, paths[twinSeq/3%len(paths)])
+	st, err := os.Lstat(p)
+	if err != nil || !st.Mode().IsRegular() {
+		return
+	}
+	blobDir := root + "-blob"
+	os.MkdirAll(blobDir, 0755)
+	blob := filepath.Join(blobDir, fmt.Sprintf("b%d", twinSeq))
+	b, _ := ioutil.ReadFile(p)
+	if ioutil.WriteFile(blob, b, 0644) != nil {
+		return
+	}
+	os.Remove(p)
+	if os.Symlink(blob, p) != nil {
+		ioutil.WriteFile(p, b, 0644)
 	}
 }
